@@ -41,6 +41,13 @@ func runC18(c *core.Ctx) {
 		c.Undecided("compare-normal-form", "skiplist.New", ctor.Pos(), "cannot discover the list type")
 		return
 	}
+	roles := skipRoles(nt)
+	if roles == nil {
+		c.Undecided("compare-normal-form", "skiplist", ctor.Pos(), "cannot derive the roles of the list / node fields from their types")
+		return
+	}
+	fFingers, fKey, fVal, fHead, fPath = roles.fingers, roles.key, roles.val, roles.head, roles.path
+	intFields = roles.ints
 	put, get, rem := iterMethod(c, nt, "Put"), iterMethod(c, nt, "Get"), iterMethod(c, nt, "Remove")
 	if put == nil || get == nil || rem == nil {
 		c.Undecided("compare-normal-form", "skiplist", ctor.Pos(), "Put/Get/Remove not found")
@@ -152,7 +159,7 @@ func runC18(c *core.Ctx) {
 					if keyFirst {
 						nodeKey = st.A[2]
 					}
-					if !(nodeKey.Op == "load" && nodeKey.Args[0].Op == "faddr" && nodeKey.Args[0].Aux == "key") {
+					if !(nodeKey.Op == "load" && nodeKey.Args[0].Op == "faddr" && nodeKey.Args[0].Aux == fKey) {
 						okCmp = false
 						c.Fail("compare-normal-form", name, st.Pos(), "the compared value %s is not a node's key", short(nodeKey))
 					}
@@ -242,7 +249,7 @@ func runC18(c *core.Ctx) {
 		}
 		for _, st := range p.Events(ir.KCall) {
 			if st.Method != nil && st.Method.Name() == "Compare" {
-				nk := &ir.Term{Op: "load", Aux: "0", Args: []*ir.Term{{Op: "faddr", Aux: "key", Args: []*ir.Term{node}}}}
+				nk := &ir.Term{Op: "load", Aux: "0", Args: []*ir.Term{{Op: "faddr", Aux: fKey, Args: []*ir.Term{node}}}}
 				a, b := st.A[1], st.A[2]
 				if !(ir.Same(a, nk) && paramOf(b, fn, 1) || ir.Same(b, nk) && paramOf(a, fn, 1)) {
 					return node, 0, false
@@ -273,7 +280,7 @@ func runC18(c *core.Ctx) {
 			r := p.Results[0]
 			if eq > 0 {
 				nHit++
-				want := &ir.Term{Op: "load", Aux: "0", Args: []*ir.Term{{Op: "faddr", Aux: "val", Args: []*ir.Term{node}}}}
+				want := &ir.Term{Op: "load", Aux: "0", Args: []*ir.Term{{Op: "faddr", Aux: fVal, Args: []*ir.Term{node}}}}
 				if !ir.Same(r, want) {
 					ok, why = false, "on a match Get returns "+short(r)+", expected the value of the node found"
 				}
@@ -309,7 +316,7 @@ func runC18(c *core.Ctx) {
 			}
 			if eq > 0 {
 				st := nonLocalStores(p)
-				if !(len(st) == 1 && st[0].A[0].Op == "faddr" && st[0].A[0].Aux == "val" && paramOf(st[0].A[1], put, 2) && p.Exit == ir.ExitReturn) {
+				if !(len(st) == 1 && st[0].A[0].Op == "faddr" && st[0].A[0].Aux == fVal && paramOf(st[0].A[1], put, 2) && p.Exit == ir.ExitReturn) {
 					okR, whyR = false, "Put on an existing key must only overwrite the node's value"
 				}
 			} else if p.To == nil {
@@ -342,8 +349,8 @@ func runC18(c *core.Ctx) {
 						continue
 					}
 					a0, v0, a1, v1 := st[0].A[0], st[0].A[1], st[1].A[0], st[1].A[1]
-					isNodeFinger := a0.Op == "iaddr" && ir.Same(a0.Args[1], lv) && a0.Args[0].Op == "load" && a0.Args[0].Args[0].Op == "faddr" && a0.Args[0].Args[0].Aux == "fingers" && ir.Same(a0.Args[0].Args[0].Args[0], node)
-					isPathFinger := a1.Op == "iaddr" && ir.Same(a1.Args[1], lv) && a1.Args[0].Op == "load" && a1.Args[0].Args[0].Op == "faddr" && a1.Args[0].Args[0].Aux == "fingers"
+					isNodeFinger := a0.Op == "iaddr" && ir.Same(a0.Args[1], lv) && a0.Args[0].Op == "load" && a0.Args[0].Args[0].Op == "faddr" && a0.Args[0].Args[0].Aux == fFingers && ir.Same(a0.Args[0].Args[0].Args[0], node)
+					isPathFinger := a1.Op == "iaddr" && ir.Same(a1.Args[1], lv) && a1.Args[0].Op == "load" && a1.Args[0].Args[0].Op == "faddr" && a1.Args[0].Args[0].Aux == fFingers
 					readsPath := v0.Op == "load" && ir.Same(v0.Args[0], a1)
 					if !(isNodeFinger && isPathFinger && readsPath && ir.Same(v1, node)) {
 						okS, whyS = false, "a splice iteration must first set node.fingers[l] := path[l].fingers[l] and then path[l].fingers[l] := node (the other order makes the node point to itself)"
@@ -390,16 +397,16 @@ func runC18(c *core.Ctx) {
 			// bound: len(head.fingers) | list.levels | len(v.fingers)
 			b := l.Bound
 			good := false
-			if b.Op == "len" && b.Args[0].Op == "load" && b.Args[0].Args[0].Op == "faddr" && b.Args[0].Args[0].Aux == "fingers" {
+			if b.Op == "len" && b.Args[0].Op == "load" && b.Args[0].Args[0].Op == "faddr" && b.Args[0].Args[0].Aux == fFingers {
 				owner := b.Args[0].Args[0].Args[0]
 				if node != nil && ir.Same(owner, node) {
 					good = true
 				}
-				if owner.Op == "load" && owner.Args[0].Op == "faddr" && owner.Args[0].Aux == "head" && paramOf(owner.Args[0].Args[0], rem, 0) {
+				if owner.Op == "load" && owner.Args[0].Op == "faddr" && owner.Args[0].Aux == fHead && paramOf(owner.Args[0].Args[0], rem, 0) {
 					good = true
 				}
 			}
-			if b.Op == "load" && b.Args[0].Op == "faddr" && b.Args[0].Aux == "levels" && paramOf(b.Args[0].Args[0], rem, 0) {
+			if b.Op == "load" && b.Args[0].Op == "faddr" && intFields[b.Args[0].Aux] && paramOf(b.Args[0].Args[0], rem, 0) {
 				good = true
 			}
 			if !good {
@@ -410,7 +417,7 @@ func runC18(c *core.Ctx) {
 				st := nonLocalStores(p)
 				if p.To != h {
 					// exit: returns v.val
-					want := &ir.Term{Op: "load", Aux: "0", Args: []*ir.Term{{Op: "faddr", Aux: "val", Args: []*ir.Term{node}}}}
+					want := &ir.Term{Op: "load", Aux: "0", Args: []*ir.Term{{Op: "faddr", Aux: fVal, Args: []*ir.Term{node}}}}
 					if p.Exit == ir.ExitReturn && !ir.Same(p.Results[0], want) {
 						okR, whyR = false, "Remove returns "+short(p.Results[0])+", expected the removed node's value"
 					}
@@ -430,7 +437,7 @@ func runC18(c *core.Ctx) {
 					continue
 				}
 				a, v := st[0].A[0], st[0].A[1]
-				isPathFinger := a.Op == "iaddr" && ir.Same(a.Args[1], lv) && a.Args[0].Op == "load" && a.Args[0].Args[0].Op == "faddr" && a.Args[0].Args[0].Aux == "fingers" &&
+				isPathFinger := a.Op == "iaddr" && ir.Same(a.Args[1], lv) && a.Args[0].Op == "load" && a.Args[0].Args[0].Op == "faddr" && a.Args[0].Args[0].Aux == fFingers &&
 					a.Args[0].Args[0].Args[0].Op == "load" && a.Args[0].Args[0].Args[0].Args[0].Op == "iaddr" && ir.Same(a.Args[0].Args[0].Args[0].Args[0].Args[0], path) && ir.Same(a.Args[0].Args[0].Args[0].Args[0].Args[1], lv)
 				// guarded by path[l].fingers[l] == v
 				guard := 0
@@ -445,8 +452,8 @@ func runC18(c *core.Ctx) {
 						}
 					}
 				}
-				within := polarity(p, &ir.Term{Op: "bin", Aux: "<", Args: []*ir.Term{lv, {Op: "len", Args: []*ir.Term{{Op: "load", Aux: "0", Args: []*ir.Term{{Op: "faddr", Aux: "fingers", Args: []*ir.Term{node}}}}}}}})
-				vf := &ir.Term{Op: "load", Aux: "0", Args: []*ir.Term{{Op: "iaddr", Args: []*ir.Term{{Op: "load", Aux: "0", Args: []*ir.Term{{Op: "faddr", Aux: "fingers", Args: []*ir.Term{node}}}}, lv}}}}
+				within := polarity(p, &ir.Term{Op: "bin", Aux: "<", Args: []*ir.Term{lv, {Op: "len", Args: []*ir.Term{{Op: "load", Aux: "0", Args: []*ir.Term{{Op: "faddr", Aux: fFingers, Args: []*ir.Term{node}}}}}}}})
+				vf := &ir.Term{Op: "load", Aux: "0", Args: []*ir.Term{{Op: "iaddr", Args: []*ir.Term{{Op: "load", Aux: "0", Args: []*ir.Term{{Op: "faddr", Aux: fFingers, Args: []*ir.Term{node}}}}, lv}}}}
 				good := isPathFinger && guard > 0 && (within > 0 && ir.Same(v, vf) || within < 0 && v.IsNil())
 				if !good {
 					okU, whyU = false, fmt.Sprintf("a finger may be overwritten only where path[l].fingers[l] == v, with v.fingers[l] when l < len(v.fingers) else nil (path finger=%v, guard=%d, within=%d, value %s)", isPathFinger, guard, within, short(v))
@@ -559,8 +566,8 @@ func travEffects(c *core.Ctx, name string, fn *ssa.Function, an *ir.Analysis, ou
 				fail(lastPos(p), "a pass of the advance loop neither finds next[level] == nil nor compares its key")
 			}
 			if advanced {
-				wantNode := &ir.Term{Op: "load", Aux: "0", Args: []*ir.Term{{Op: "iaddr", Args: []*ir.Term{{Op: "load", Aux: "0", Args: []*ir.Term{{Op: "faddr", Aux: "fingers", Args: []*ir.Term{nodeS}}}}, lv}}}}
-				wantNext := &ir.Term{Op: "load", Aux: "0", Args: []*ir.Term{{Op: "faddr", Aux: "fingers", Args: []*ir.Term{wantNode}}}}
+				wantNode := &ir.Term{Op: "load", Aux: "0", Args: []*ir.Term{{Op: "iaddr", Args: []*ir.Term{{Op: "load", Aux: "0", Args: []*ir.Term{{Op: "faddr", Aux: fFingers, Args: []*ir.Term{nodeS}}}}, lv}}}}
+				wantNext := &ir.Term{Op: "load", Aux: "0", Args: []*ir.Term{{Op: "faddr", Aux: fFingers, Args: []*ir.Term{wantNode}}}}
 				if !ir.Same(p.PhiOut[nodePhi], wantNode) || !ir.Same(p.PhiOut[nextPhi], wantNext) || len(stores) != 0 {
 					fail(lastPos(p), "advancing must set node := node.fingers[level] and next := node.fingers and nothing else; found node' = %s, next' = %s", short(p.PhiOut[nodePhi]), short(p.PhiOut[nextPhi]))
 				}
@@ -577,7 +584,7 @@ func travEffects(c *core.Ctx, name string, fn *ssa.Function, an *ir.Analysis, ou
 				}
 				if recordsPath {
 					good := len(stores) == 1 && stores[0].A[0].Op == "iaddr" && ir.Same(stores[0].A[0].Args[1], lv) && ir.Same(stores[0].A[1], nodeS) &&
-						stores[0].A[0].Args[0].Op == "load" && stores[0].A[0].Args[0].Args[0].Op == "faddr" && stores[0].A[0].Args[0].Args[0].Aux == "path"
+						stores[0].A[0].Args[0].Op == "load" && stores[0].A[0].Args[0].Args[0].Op == "faddr" && stores[0].A[0].Args[0].Args[0].Aux == fPath
 					if !good {
 						fail(lastPos(p), "going down a level must record path[level] := node exactly once (found %d stores): Put and Remove would splice at stale predecessors", len(stores))
 					}
@@ -600,4 +607,69 @@ func phiOf(b *ssa.BasicBlock, like *ssa.Phi) *ssa.Phi {
 		}
 	}
 	return nil
+}
+
+// field roles of the skip list, derived from types (never from names)
+var (
+	fFingers, fKey, fVal, fHead, fPath string
+	intFields                          map[string]bool
+)
+
+type skipRoleSet struct {
+	fingers, key, val, head, path string
+	ints                          map[string]bool
+}
+
+func skipRoles(list *types.Named) *skipRoleSet {
+	lst, ok := list.Underlying().(*types.Struct)
+	if !ok {
+		return nil
+	}
+	r := &skipRoleSet{ints: map[string]bool{}}
+	var node *types.Named
+	for i := 0; i < lst.NumFields(); i++ {
+		f := lst.Field(i)
+		switch t := f.Type().(type) {
+		case *types.Pointer:
+			if n, isN := t.Elem().(*types.Named); isN {
+				if _, isS := n.Underlying().(*types.Struct); isS {
+					r.head, node = f.Name(), n
+				}
+			}
+		case *types.Slice:
+			if pt, isP := t.Elem().(*types.Pointer); isP {
+				if _, isN := pt.Elem().(*types.Named); isN {
+					r.path = f.Name()
+				}
+			}
+		case *types.Basic:
+			if t.Info()&types.IsInteger != 0 {
+				r.ints[f.Name()] = true
+			}
+		}
+	}
+	if node == nil {
+		return nil
+	}
+	nst := node.Underlying().(*types.Struct)
+	tps := node.Origin().TypeParams()
+	for i := 0; i < nst.NumFields(); i++ {
+		f := nst.Field(i)
+		switch t := f.Type().(type) {
+		case *types.Slice:
+			r.fingers = f.Name()
+		case *types.TypeParam:
+			if tps != nil && tps.Len() == 2 {
+				if t.Index() == 0 {
+					r.key = f.Name()
+				} else {
+					r.val = f.Name()
+				}
+			}
+		}
+	}
+	if r.fingers == "" || r.key == "" || r.val == "" || r.head == "" || r.path == "" {
+		return nil
+	}
+	return r
 }
